@@ -197,6 +197,8 @@ func specHTTP() vt.ProtoSpec {
 			// not the message's codec; a request carries no status
 			return vt.CompareOpts{MetaAsSet: true, SkipMethod: isReply, SkipStatus: !isReply, SkipCodec: isReply && m.HasStatus && m.Code != 0}
 		},
+		// an error reply carries the status document instead of a body of its own
+		NoTypedBody: func(m vt.Msg) bool { return m.HasStatus },
 	}
 }
 
